@@ -509,3 +509,18 @@ Theorem C19_server_port_is_suffix_of_host :
   forall host : bytes, server_port host = lit_80 \/ exists a, host = a ++ server_port host.
 Proof. exact server_port_suffix. Qed.
 Print Assumptions C19_server_port_is_suffix_of_host.
+
+(* {labelN} VALUE, full strength: for EVERY Host header and EVERY N text, the model with checked
+   indexing (labels[n-1] = Lib.idx) never panics and yields exactly label_spec — the N-th
+   dot-separated piece of the Host AS SENT (a port containing dots, empty labels, trailing dots,
+   IPv6 literals are split like any other text), the empty value when N is not in 1..#pieces;
+   the number of pieces is 1 + the number of dots, whatever else the Host contains *)
+Theorem C19_label_subst_value :
+  forall host nstr : bytes, label_subst host nstr = Ok (label_spec host nstr).
+Proof. exact label_subst_value. Qed.
+Print Assumptions C19_label_subst_value.
+
+Theorem C19_label_pieces_count :
+  forall host : bytes, length (split 46 host) = S (length (filter (fun c => N.eqb c 46) host)).
+Proof. exact label_pieces_count. Qed.
+Print Assumptions C19_label_pieces_count.
